@@ -45,6 +45,9 @@ func (r *retainer) keep(m *mangos.Message, from string, keepFor int) {
 		for i := range m.Body {
 			m.Body[i] ^= 0x20
 		}
+		for i := range m.Header {
+			m.Header[i] ^= 0x55
+		}
 		r.w.Probe("received-message-modified-in-place")
 	}
 	r.held = append(r.held, &held{m: m, body: append([]byte(nil), m.Body...), header: append([]byte(nil), m.Header...), from: from, freeAt: r.tick + keepFor})
@@ -141,6 +144,12 @@ func c17Run(w *W) {
 	case "pair":
 		skind, rkind = "pair", "pair"
 		nrecv = 1
+	}
+	if (topo == "bus" || topo == "pipeline" || topo == "pubsub") && w.Choose(simrt.SShape, 4) == 0 {
+		// raw receivers: what RecvMsg hands out has a protocol header, which is
+		// the application's like the body (for raw BUS: the arrival pipe's id)
+		rkind = "x" + rkind
+		w.SetShape("raw_receivers", true)
 	}
 	rawSender := topo != "reqrep" && w.Choose(simrt.SShape, 3) == 0
 	if rawSender {
@@ -277,6 +286,10 @@ func c17Run(w *W) {
 				got := rc.Val.(*mangos.Message)
 				if !bytes.HasPrefix(got.Body, []byte("m")) {
 					w.Failf("C17/garbage-delivered:"+r.name, "%s received %q", r.name, clip(got.Body))
+					return
+				}
+				if rkind == "xbus" && (got.Pipe == nil || !bytes.Equal(got.Header, u32(got.Pipe.ID()))) {
+					w.Failf("C17/received-header-wrong:"+r.name, "raw BUS: the message %q arrived with header %x; the header of a received raw BUS message is the id of the pipe it arrived on (%v)", clip(got.Body), got.Header, got.Pipe)
 					return
 				}
 				ret.keep(got, r.name, w.Choose(simrt.SProg, 6))
